@@ -184,7 +184,7 @@ def _r3(ctx, pkg):
                   expected=f"[x.name for x in sorted(self.{attr})]", found=found)
 
 
-def _r4(ctx, pkg):
+def _r4(ctx, pkg, rule="R4"):
     fn = pkg.method("Network", "remove_reaction")
     ctx.saw(NF, "Network.remove_reaction")
     fl = Flow(fn, NF)
@@ -201,7 +201,7 @@ def _r4(ctx, pkg):
             ok = it == ("call", ("global", "enumerate"), (RL,), ()) and tg[0] == "tuple" and v[2] == tg[1][1] and tuple(ifs) == (("cmp", ("NotIn",), (tg[1][0], R)),)
     else:
         found = "; ".join(f"{f.kind} {f.target}@{f.line}" for f in st)
-    ctx.check(ok, "R4", "remove_reaction:list of indices", (NF, st[0].line if st else fn.lineno),
+    ctx.check(ok, rule, "remove_reaction:list of indices", (NF, st[0].line if st else fn.lineno),
               "exactly the reactions whose position is not listed survive (repeated indices are harmless)" if ok else
               "the index-list branch does not rebuild the list from `idx not in reaction`: in-place deletion shifts positions / mishandles repeated indices",
               expected="[r for idx, r in enumerate(self.reaction_list) if idx not in reaction]", found=found)
